@@ -433,6 +433,18 @@ def stage_targeted(ctx: Ctx, progs):
                             if outs[0] != outs[1]:
                                 ctx.violation('negative-coordinates', 'a raw edit given with negative columns is not the edit made with the same positions counted from the start of their lines',
                                               {'start_src': src, 'rect_negative': [ln, col, eln, ecol], 'rect_positive': [ln, pc, eln, pe], 'new': new, 'with_negative': outs[0][0][:200], 'with_positive': outs[1][0][:200]})
+    # (4f) blanks put right at the first column of a statement that starts its own line inside a block: alone the statement would parse at the new column, in the block it is an
+    #      indentation error - refused, nothing changed (or, where the new indentation is valid, applied like a from-scratch parse)
+    for src in ['if x:\n    a\n    bc\n', 'def f():\n    x = 1\n    return x\nz\n', 'class K:\n    def m(self):\n        p\n        q\n    r = 1\n', 'for i in j:\n    if k:\n        l\n    m\nelse:\n    n\n    o\n']:
+        t_ = ast.parse(src)
+        for n_ in ast.walk(t_):
+            if isinstance(n_, ast.stmt) and n_.lineno > 1 and n_.col_offset > 0:
+                ln_, col_ = n_.lineno - 1, n_.col_offset
+                for new in ('  ', ' ', '\t', '    '):
+                    judge_edit(ctx, 'indent-at-statement-start', src, 'exec', (ln_, col_, ln_, col_), new)
+                    judge_edit(ctx, 'indent-at-statement-start', src, 'exec', (ln_, col_, ln_, col_ + 1), new + src.split('\n')[ln_][col_])
+                if col_ >= 2:
+                    judge_edit(ctx, 'indent-at-statement-start', src, 'exec', (ln_, col_ - 1, ln_, col_), '')
     # (5) line continuations and semicolons
     for src in CONT_PROGS:
         root = fst.FST(src, 'exec')
